@@ -104,6 +104,22 @@ def run(st, tier, seed):
                 want_strands = [l for l in out["strands"].split("\n") if l]
                 if "ok" not in g or g["ok"]["seqs"] != want_seqs or g["ok"]["strands"] != want_strands:
                     res.corr_breaks.append({"name": "Finish.apply", "input": inp, "model": g, "impl": {"seqs": want_seqs[:5], "strands": want_strands[:5]}})
+    # known finding F13: a structure that shares its name with a sequence (the .mfe format has one namespace)
+    fb = progen.Bundle()
+    fb.texts["top.comp"] = ("declare component T: X -> X\nsequence X = \"6N\"\nsequence y = \"4N\"\nstrand S = X y\n"
+                            "structure X = S : ..........\n")
+    fb.entry = "top"
+    with core.scratch("pepper_c06f13_") as d:
+        try:
+            pipeline.run_pipeline(fb, rng, d)
+        except pipeline.Stage as e:
+            if e.stage == "finish":
+                res.violations.append({"what": "finish fails on a valid design when a structure shares its name with a sequence",
+                                       "input": {"files": fb.texts, "entry": "top"}, "observed": repr(e.exc),
+                                       "sig": "C06:F13-structure-named-like-sequence", "cmd": "pepper-compiler top; pepper-design-spurious; pepper-finish"})
+            elif e.stage != "compile":
+                res.violations.append({"what": "stage %s fails for the name-collision probe: %r" % (e.stage, e.exc),
+                                       "input": {"files": fb.texts, "entry": "top"}, "sig": "C06:stage:" + e.stage, "cmd": "pepper-finish"})
     # command-line tools
     m = 4 if tier == "quick" else 40
     for i in range(m):
